@@ -53,7 +53,7 @@ type MakeString struct {
 func (f *MakeString) Call(s *slip.Scope, args slip.List, depth int) slip.Object {
 	slip.CheckArgCount(s, depth, f, args, 1, 5)
 	size, ok := args[0].(slip.Fixnum)
-	if !ok || size < 0 {
+	if !ok || size < 0 || slip.ArrayMaxDimension < size {
 		slip.TypePanic(s, depth, "size", args[0], "fixnum")
 	}
 	var c slip.Character
